@@ -181,6 +181,10 @@ func (w *World) probe(a app.App, ctx app.IOContext) error {
 	}
 	w.Events = append(w.Events, Event{w.tick(), "end", deps.ID, deps.Task})
 	switch deps.Fail {
+	case "stop-return":
+		// the command stops its scope gracefully and THEN reports a failure
+		ctx.Scope().Stop()
+		return ErrProbe
 	case "return":
 		return ErrProbe
 	case "append":
